@@ -240,13 +240,63 @@ func c09Specs(tier string) []*h.CrashSpec {
 			Recover:   c09Recover(f, repo, items, tags, subjects, pol),
 		})
 	}
+	// an index and its children: pushing the index moves the children's entries out of index.json, deleting it by
+	// digest has to bring them back - several index writes inside one request
+	{
+		itemsX := []string{"c", "l1", "l2", "I1", "I2", "X"}
+		tagsX := []string{"t", "x"}
+		opsX := []h.Op{opPushMan("C09", repo, f, "X", ""), opPushMan("C09", repo, f, "X", "x"), opDeleteMan("C09", repo, f, "X"), opDeleteMan("C09", repo, f, "I1"),
+			opDeleteTag("C09", repo, "x"), opPushMan("C09", repo, f, "I1", "t"),
+			{Name: "collection tick", Do: func(w *h.World) []h.Violation {
+				if gcTick(w) {
+					regM(w).Repo(repo).Collected(f, pol)
+				}
+				return nil
+			}}}
+		var hx [][]int
+		var genX func(cur []int)
+		genX = func(cur []int) {
+			if len(cur) > 0 {
+				hx = append(hx, append([]int{}, cur...))
+			}
+			if len(cur) == maxLen {
+				return
+			}
+			for k := range opsX {
+				genX(append(cur, k))
+			}
+		}
+		genX(nil)
+		for _, withIndex := range []bool{false, true} {
+			withIndex := withIndex
+			name := "c09-index-children-pushed"
+			if withIndex {
+				name = "c09-index-pushed"
+			}
+			specs = append(specs, &h.CrashSpec{
+				Name: name,
+				Conf: &h.Conf{Name: "dir", Store: "dir", Mod: func(c *config.Config) { pol.Apply(c) }},
+				Init: func(w *h.World) {
+					w.M = NewMRegFix(f)
+					put(w, "c", "l1", "l2", "I1", "I2")
+					if withIndex {
+						put(w, "X")
+					}
+				},
+				Ops:       opsX,
+				Histories: hx,
+				ModelJSON: func(w *h.World) string { return regM(w).String() },
+				Recover:   c09Recover(f, repo, itemsX, tagsX, nil, pol),
+			})
+		}
+	}
 	return specs
 }
 
 func init() {
 	h.RegisterCrash(&h.CrashCheck{
 		ID: "C09",
-		Rule: "for every history of length <= 3 (quick) / <= 4 (thorough, within the time budget) over 12 single-request operations (blob uploads, first push, tag move, second tag, artifact push, tag / digest / artifact delete, collection tick) from four start states, plus three longer scripts: every mutating filesystem call of the directory store (mkdir, create-temp, write, write-file, rename, remove) is a crash point and every write is torn after 0, n/2 and n-1 bytes; " +
+		Rule: "for every history of length <= 3 (quick) / <= 4 (thorough, within the time budget) over 12 single-request operations (blob uploads, first push, tag move, second tag, artifact push, tag / digest / artifact delete, collection tick) from four start states, plus three longer scripts, plus the same lengths over 7 operations on an index and its children (push by digest / tag, delete of the index, of a child, of the tag, tick) from two start states: every mutating filesystem call of the directory store (mkdir, create-temp, write, write-file, rename, remove) is a crash point and every write is torn after 0, n/2 and n-1 bytes; " +
 			"after each crash the server is discarded without Close, a new one is opened on the directory, and the oracle checks that the repository loads, every blob file hashes to its name, every tag resolves to a complete image, and the readable state equals the model before or after the interrupted request; non-trivial = distinct recovered directory trees",
 		Assume: []string{"process-crash model: everything issued before the crash point is on disk, nothing after it (loss of un-synced pages is outside the property)", "left-over temporary files under _uploads/ and index.json.* are not violations", "collection policy: untagged and dangling referrers collected, no grace period, so that ticks remove content"},
 		Specs:  c09Specs,
